@@ -760,6 +760,31 @@ func checkIncGamma(c *mon.Case, x, a, lg float64) (float64, bool) {
 	return v, true
 }
 
+// runIncGammaTail: x far in the right tail, up to the largest float64 (the statement says "all x >= 0"): the ratio
+// is 1 there (the upper tail is below 1e-300), in [0,1], not a NaN, and the call returns (CPU budget otherwise).
+var tailXs = []float64{600, 1e3, 1e4, 1e6, 1e9, 1e15, 1e30, 1e60, 1e100, 1e153, 1e154, 1e155, 1e200, 1e300, math.MaxFloat64}
+var tailAs = []float64{0.01, 0.5, 1, 2, 10, 50, 100}
+
+func runIncGammaTail(c *mon.Case) {
+	x := tailXs[c.Idx%len(tailXs)]
+	a := tailAs[(c.Idx/len(tailXs))%len(tailAs)]
+	lg, _ := math.Lgamma(a)
+	c.Input(map[string]interface{}{"alpha": a, "x": x})
+	c.Checkpoint()
+	v := models.IncompleteGamma(x, a, lg)
+	if math.IsNaN(v) || v < 0 || v > 1+1e-12 {
+		c.Failf("IncompleteGamma:tail-out-of-range", "IncompleteGamma(x=%v, alpha=%v) = %v, not in [0,1]", x, a, v)
+		return
+	}
+	// upper tail Q(a,x) < x^(a-1) e^-x / Gamma(a) * (1 + (a-1)/x + ...) is below 1e-100 for x >= 600 + 4a
+	if x >= 600+4*a && math.Abs(v-1) > 1e-8 {
+		c.Failf("IncompleteGamma:tail-not-one", "IncompleteGamma(x=%v, alpha=%v) = %.17g, the ratio is 1 within 1e-100 there", x, a, v)
+		return
+	}
+	c.Count("incgamma:right-tail")
+	c.NonTrivial(fmt.Sprint(x, a))
+}
+
 func runIncGamma(c *mon.Case) {
 	r := c.R
 	a := genA(r, c.Idx)
@@ -1175,6 +1200,7 @@ func main() {
 		{Name: "dist", Quick: 1400, Thorough: 21000, Run: runDist},
 		{Name: "dgamma", Quick: 8000, Thorough: 150000, Run: runDGamma},
 		{Name: "incgamma", Quick: 40000, Thorough: 800000, Run: runIncGamma},
+		{Name: "incgamma-tail", Quick: len(tailXs) * len(tailAs), Thorough: len(tailXs) * len(tailAs), Run: runIncGammaTail},
 		{Name: "rates", Quick: 12000, Thorough: 250000, Run: runRates},
 	})
 }
